@@ -46,7 +46,8 @@ def demo_cmd(path):
 def main():
     wt, name, pid = sys.argv[1], sys.argv[2], sys.argv[3]
     tier = sys.argv[sys.argv.index('--tier') + 1] if '--tier' in sys.argv else 'quick'
-    d = os.path.join(wt, 'seeded', name)
+    sub = sys.argv[sys.argv.index('--dir') + 1] if '--dir' in sys.argv else 'seeded'
+    d = os.path.join(wt, sub, name)
     patch = os.path.join(d, 'patch.diff')
     res = {'property': pid, 'name': name, 'scratch': wt}
     sh('git checkout -- . ', cwd=wt)
